@@ -1,3 +1,29 @@
+//@ fn Store::tmp_file
+//@ spec
+    ensures res matches Ok(t) ==> t.content().len() == 0,
+//@ closure 1
+|err: IoError| -> (r: Failed)
+//@ fn UpdateError::fatal
+//@ spec
+    ensures res is Failed,
+//@ fn RunFailed::fatal
+//@ spec
+    ensures res.fatal,
+//@ fn RunFailed::retry
+//@ spec
+    ensures !res.fatal,
+//@ fn RunFailed::is_fatal
+//@ spec
+    ensures res == self.fatal,
+//@ fn RunFailed::should_retry
+//@ spec
+    ensures res == !self.fatal,
+//@ fn StoredPoint::is_new
+//@ spec
+    ensures res == self.is_new,
+//@ fn StoredPoint::manifest
+//@ spec
+    ensures match res { Some(m) => self.manifest == Some(*m), None => self.manifest is None },
 //@ fn StoredPoint::update
 //@ spec
     requires
@@ -52,6 +78,8 @@
         final(self).path == old(self).path,
         final(self).header.manifest_uri == old(self).header.manifest_uri,
         final(self).header.rpki_notify == old(self).header.rpki_notify,
+//@ entry
+    proof { lemma_file_states(); }
 //@ global
 // ---- encodings (abstract; their read-back is C28's subject) -----------------
 uninterp spec fn enc_header(h: StoredPointHeader) -> Seq<u8>;
@@ -123,34 +151,46 @@ spec fn update_post(pre: StoredPoint, post: StoredPoint, manifest: StoredManifes
 }
 
 // ---- assumed contracts of methods on extracted types ---------------------------
-impl Store {
-    // A fresh, empty temporary file in <store>/tmp.
-    #[verifier::external_body]
-    fn tmp_file(&self) -> (r: Result<NamedTempFile, Failed>)
-        ensures r matches Ok(t) ==> t.content().len() == 0,
-    { unimplemented!() }
-}
 impl StoredPointHeader {
     #[verifier::external_body]
     fn write<W: IoWrite>(&self, writer: &mut W) -> (r: Result<(), IoError>)
-        ensures appended(old(writer).written(), final(writer).written(), enc_header(*self), r is Ok),
+        requires
+            forall|n: int| 0 <= n <= enc_header(*self).len() ==>
+                old(writer).state_ok(old(writer).written() + #[trigger] enc_header(*self).subrange(0, n)),
+        ensures
+            appended(old(writer).written(), final(writer).written(), enc_header(*self), r is Ok),
+            forall|b: Seq<u8>| final(writer).state_ok(b) == old(writer).state_ok(b),
     { unimplemented!() }
 }
 impl StoredManifest {
     #[verifier::external_body]
     fn write<W: IoWrite>(&self, writer: &mut W) -> (r: Result<(), IoError>)
-        ensures appended(old(writer).written(), final(writer).written(), enc_manifest(*self), r is Ok),
+        requires
+            forall|n: int| 0 <= n <= enc_manifest(*self).len() ==>
+                old(writer).state_ok(old(writer).written() + #[trigger] enc_manifest(*self).subrange(0, n)),
+        ensures
+            appended(old(writer).written(), final(writer).written(), enc_manifest(*self), r is Ok),
+            forall|b: Seq<u8>| final(writer).state_ok(b) == old(writer).state_ok(b),
     { unimplemented!() }
 }
 impl StoredObject {
     #[verifier::external_body]
     fn write<W: IoWrite>(&self, writer: &mut W) -> (r: Result<(), IoError>)
-        ensures appended(old(writer).written(), final(writer).written(), enc_object(*self), r is Ok),
+        requires
+            forall|n: int| 0 <= n <= enc_object(*self).len() ==>
+                old(writer).state_ok(old(writer).written() + #[trigger] enc_object(*self).subrange(0, n)),
+        ensures
+            appended(old(writer).written(), final(writer).written(), enc_object(*self), r is Ok),
+            forall|b: Seq<u8>| final(writer).state_ok(b) == old(writer).state_ok(b),
     { unimplemented!() }
 }
-impl UpdateError {
+impl vstd::std_specs::convert::FromSpecImpl<RunFailed> for UpdateError {
+    open spec fn obeys_from_spec() -> bool { false }
+    open spec fn from_spec(v: RunFailed) -> UpdateError { arbitrary() }
+}
+impl From<RunFailed> for UpdateError {
     #[verifier::external_body]
-    fn fatal() -> (r: UpdateError) ensures r is Failed { unimplemented!() }
+    fn from(value: RunFailed) -> (r: UpdateError) ensures r is Failed { unimplemented!() }
 }
 impl vstd::std_specs::convert::FromSpecImpl<Failed> for UpdateError {
     open spec fn obeys_from_spec() -> bool { false }
@@ -168,11 +208,45 @@ impl NamedTempFile {
         ensures r matches Ok(f) ==> f.content() == self.content() && f.path() == new_path.p,
     { unimplemented!() }
 }
+// C04/C23: the states a stored point file may be in: empty (just created or truncated), a prefix
+// of the header of a point that never succeeded, or a complete point.
+spec fn file_state(b: Seq<u8>) -> bool {
+    ||| b.len() == 0
+    ||| exists|h: StoredPointHeader, n: int| h.update_status is LastAttempt && 0 <= n <= enc_header(h).len()
+            && b == #[trigger] enc_header(h).subrange(0, n)
+    ||| complete_point(b)
+}
+proof fn lemma_file_states()
+    ensures
+        forall|h: StoredPointHeader, n: int| h.update_status is LastAttempt && 0 <= n <= enc_header(h).len() ==>
+            file_state(Seq::<u8>::empty() + #[trigger] enc_header(h).subrange(0, n)),
+{
+    assert forall|h: StoredPointHeader, n: int| h.update_status is LastAttempt && 0 <= n <= enc_header(h).len() implies
+            file_state(Seq::<u8>::empty() + #[trigger] enc_header(h).subrange(0, n)) by {
+        assert(Seq::<u8>::empty() + enc_header(h).subrange(0, n) =~= enc_header(h).subrange(0, n));
+    }
+}
+impl IoWrite for File {
+    open spec fn written(&self) -> Seq<u8> { self.content() }
+    closed spec fn state_ok(&self, bytes: Seq<u8>) -> bool { file_state(bytes) }
+}
 impl File {
-    // Create-or-truncate. C04: allowed only to discard a point (reject), which a caller does
-    // deliberately; nothing is claimed to be kept.
+    // Create-or-truncate: the stored data (if any) is discarded, which `reject` does deliberately;
+    // afterwards every in-place write must keep the file in a file_state.
     #[verifier::external_body]
     fn create(path: &PathBuf) -> (r: Result<File, IoError>)
-        ensures r matches Ok(f) ==> f.content().len() == 0 && f.path() == path.p,
+        ensures r matches Ok(f) ==> f.content() == Seq::<u8>::empty() && f.path() == path.p,
     { unimplemented!() }
+    #[verifier::external_body]
+    fn open(path: &PathBuf) -> (r: Result<File, IoError>)
+        ensures r matches Ok(f) ==> f.path() == path.p,
+    { unimplemented!() }
+    // writes are modelled as appends: repositioning is only admitted on an empty file
+    #[verifier::external_body]
+    fn seek(&mut self, to: SeekFrom) -> (r: Result<u64, IoError>)
+        requires old(self).content().len() == 0,
+        ensures final(self).content() == old(self).content(), final(self).path() == old(self).path(),
+    { unimplemented!() }
+    #[verifier::external_body]
+    fn sync_all(&self) -> (r: Result<(), IoError>) { unimplemented!() }
 }
